@@ -65,6 +65,16 @@ Fixpoint wf (s : space) : bool :=
          match ss with [] => true | s :: ss' => wf s && go ss' end) ss
   end.
 
+(* does the space contain a float Box anywhere *)
+Fixpoint has_float (s : space) : bool :=
+  match s with
+  | BoxF _ => true
+  | Tuple ss | Dict ss =>
+      (fix go (ss : list space) : bool :=
+         match ss with [] => false | s :: ss' => has_float s || go ss' end) ss
+  | _ => false
+  end.
+
 (* ---- wire format ------------------------------------------------------- *)
 (* space:  (0 n) (1 n) (2 d1 d2 ...) (3 (lo hi) ...) (4 (lo hi) ...) (5 s ...) (6 s ...) *)
 Fixpoint dec_space (x : sx) : option space :=
